@@ -351,6 +351,10 @@ def run_unit(unit, case, tier="quick"):
             seen.add(key)
             v = solve.prove(assum, so.cond, timeout, _opts(unit.solver_opts, ctx))
             v.reason = (v.reason + f" {so.kind} at {so.where}").strip()
+            cn = getattr(so, "clause", None)
+            if cn:      # a side obligation that belongs to a named clause of the contract (written loop summaries)
+                clause_res.setdefault(cn, ObResult(f"{uname}:{cn}")).add(v, so.kind)
+                continue
             safety.add(v, so.kind)
         if not side:
             safety.add(solve.Verdict(solve.PROVED, "engine", 0, reason="no side obligations"))
